@@ -123,8 +123,20 @@ const (
 //
 //go:norace
 func Yield(site uint32) {
+	if CovOn {
+		e := (covPrev*37 + site) & (CovSize - 1)
+		covPrev = site
+		if CovMap[e] == 0 {
+			CovMap[e] = 1
+			if covN < len(covList) {
+				covList[covN] = e
+				covN++
+			}
+		}
+	}
 	t := cur
 	if t == nil {
+		initHits[site&(MaxSites-1)]++
 		return
 	}
 	steps++
@@ -268,3 +280,65 @@ func SyncCounts() [NumOps]int64 { return syncCount }
 
 // Gosched replaces runtime.Gosched in the instrumented copy.
 func Gosched() { SyncPoint(OpGosched, 0) }
+
+// ---- edge coverage (corpus growth stage; single goroutine, no scheduler) ----
+
+const CovSize = 1 << 16
+
+var (
+	CovOn    bool
+	CovMap   [CovSize]uint8
+	covPrev  uint32
+	covList  [8192]uint32
+	covN     int
+	initHits [MaxSites]uint32
+)
+
+// CovReset clears the edges recorded since the last reset.
+//
+//go:norace
+func CovReset() {
+	if covN >= len(covList) {
+		for i := range CovMap {
+			CovMap[i] = 0
+		}
+	} else {
+		for i := 0; i < covN; i++ {
+			CovMap[covList[i]] = 0
+		}
+	}
+	covN = 0
+	covPrev = 0
+}
+
+// CovEdges calls f for every edge recorded since the last reset.
+//
+//go:norace
+func CovEdges(f func(e uint32)) {
+	if covN >= len(covList) {
+		for i := range CovMap {
+			if CovMap[i] != 0 {
+				f(uint32(i))
+			}
+		}
+		return
+	}
+	for i := 0; i < covN; i++ {
+		f(covList[i])
+	}
+}
+
+// InitHits copies the per-site counters of yields executed outside any run
+// (package initialisation).
+//
+//go:norace
+func InitHits(n int) []uint32 {
+	if n > MaxSites {
+		n = MaxSites
+	}
+	out := make([]uint32, n)
+	for i := 0; i < n; i++ {
+		out[i] = initHits[i]
+	}
+	return out
+}
